@@ -193,9 +193,14 @@ def programs_noncontig(tier):
     ])], props=("C04", "C03", "C16")))
     progs.append(Program("nc128", structs=[S("nc128", 128, [
         F("t", T_u(12), [(0, 4), (60, 8)]),                # range crossing bit 64
-        F("h", T_u(64), [(96, 32), (64, 28), (92, 4)]),    # three ranges, native type, top bit
         F("g", T_i(16), [(8, 8), (24, 8)]),
     ])], props=("C04", "C05", "C16", "C12")))
+    progs.append(Program("nc128h", structs=[S("nc128h", 128, [
+        F("h", T_u(64), [(96, 32), (64, 28), (92, 4)]),    # three ranges above bit 64, native type, top bit
+    ])], props=("C04", "C16")))
+    progs.append(Program("nc65", structs=[S("nc65", 65, [
+        F("x", T_u(5), [(62, 3), (0, 2)]),                 # range 62..=64 crosses the u64 boundary of an arbitrary base
+    ])], props=("C04", "C11", "C16")))
     progs.append(Program("nc24", structs=[S("nc24", 24, [
         F("p", T_u(5), [(23, 1), (0, 4)]),                 # top exposed bit first
         F("q", T_u(8), [(4, 2), (8, 2), (12, 2), (16, 2)]),
@@ -240,6 +245,12 @@ def programs_signed(tier):
         F("a", T_i(8), (16, 8)),
         F("b", T_i(16), (0, 16)),
     ])], props=("C05", "C11", "C16", "C13")))
+    progs.append(Program("sg12", structs=[S("sg12", 12, [
+        F("offset", T_i(8), [(0, 4), (8, 4)]),            # signed, split, last range ends at the top EXPOSED bit of u12 (storage u16)
+    ])], props=("C05", "C04", "C11", "C16", "C12")))
+    progs.append(Program("sg20", structs=[S("sg20", 20, [
+        F("a", T_i(8), [(4, 4), (0, 4)], array=(2, 10)),  # signed split array elements in an arbitrary base: 0..7, 10..17
+    ])], props=("C05", "C04", "C03", "C11", "C16")))
     if tier == "thorough":
         progs.append(Program("sg127", structs=[S("sg127", 127, [
             F("a", T_i(64), (63, 64)),
